@@ -177,11 +177,11 @@ inductive Pc where
   /-- request id loaded and found new: store pending -/
   | idChecked (inst : Str) (requestId current : Int)
   /-- request id stored: swap pending -/
-  | idStored (inst : Str) (current : Int)
+  | idStored (inst : Str) (requestId current : Int)
   /-- `old := Swap(&state.count, current)` done: `AddInt32(&f.count, delta)` pending -/
-  | swapped (inst : Str) (current old : Int)
+  | swapped (inst : Str) (requestId current old : Int)
   /-- `AddInt32(&f.count, delta)` done, result `count`: `LoadInt32(&f.max)` pending -/
-  | added (inst : Str) (current old delta count : Int)
+  | added (inst : Str) (requestId current old delta count : Int)
   /-- rollback: `AddInt32(&state.count, -delta)` pending -/
   | rollback1 (inst : Str) (old delta : Int)
   /-- rollback: `f.add(-delta)` pending (its two atomics change/read nothing that is used) -/
@@ -195,7 +195,7 @@ structure Fine where
   /-- index of the thread that owns `f.lock` -/
   owner : Option Nat
   pcs : List Pc
-deriving Repr, Inhabited
+deriving DecidableEq, Repr, Inhabited
 
 def setPc (pcs : List Pc) (t : Nat) (p : Pc) : List Pc := pcs.set t p
 
@@ -239,21 +239,21 @@ def fineStep (s : Fine) (t : Nat) (call : Option Op) : Option Fine :=
         | some st =>
           if r ≤ st.requestId then goto s.g s.owner (.unlocking ⟨false, c, .requestIDTooOld⟩)
           else goto s.g s.owner (.idChecked i r c)
-      else goto s.g s.owner (.idStored i c)
+      else goto s.g s.owner (.idStored i r c)
     | .idChecked i r c =>
       match find i s.g.states with
       | none => none
-      | some st => goto { s.g with states := put i { st with requestId := r } s.g.states } s.owner (.idStored i c)
-    | .idStored i c =>
+      | some st => goto { s.g with states := put i { st with requestId := r } s.g.states } s.owner (.idStored i r c)
+    | .idStored i r c =>
       match find i s.g.states with
       | none => none
       | some st =>
-        goto { s.g with states := put i { st with count := c } s.g.states } s.owner (.swapped i c st.count)
-    | .swapped i c old =>
+        goto { s.g with states := put i { st with count := c } s.g.states } s.owner (.swapped i r c st.count)
+    | .swapped i r c old =>
       let delta := wrap32 (c - old)
       let count := wrap32 (s.g.count + delta)
-      goto { s.g with count := count } s.owner (.added i c old delta count)
-    | .added i c old delta count =>
+      goto { s.g with count := count } s.owner (.added i r c old delta count)
+    | .added i _ c old delta count =>
       -- max := atomic.LoadInt32(&f.max); overflowed := count - max
       let overflowed := wrap32 (count - s.g.max)
       if overflowed > 0 ∧ delta > 0 then goto s.g s.owner (.rollback1 i old delta)
